@@ -152,6 +152,14 @@ def classify(diag, infos, path, unit):
             out.update(kind="aux", id="aux:%s" % (li.item_fn or li.file))
 
     m = msg.lower()
+    if "post-condition of closure" in m or "postcondition of closure" in m:
+        # the contract of a closure (spliced `#closure k` section): tagged clause -> property level, else auxiliary
+        lab = [s for s in allin if (s.get("label") or "").startswith("failed this postcondition")]
+        if lab:
+            from_clause(lab[0])
+        elif prim:
+            from_clause(prim[0])
+        return out
     if "postcondition not satisfied" in m:
         lab = [s for s in allin if (s.get("label") or "").startswith("failed this postcondition")]
         if lab:
